@@ -8,6 +8,8 @@
    (16 7 rows cols (rs rl cs cl) n0 n1)       TensorRefMatrix::with_names over that MatrixRange
    (16 8 rows cols)                           Matrix::try_into_scalar
    (16 9 rows cols probes)                    checked element access directly on a Matrix (all forms)
+   (16 10 rows cols n)                        RecordMatrix::from_iter / from_iters over n constant records
+   (16 11 shape n)                            RecordTensor::from_iter over n constant records
    The model is evaluated with dev-build (overflow-checking) arithmetic; Proofs/C16P.v shows it
    cannot panic and coincides with wrapping arithmetic, so one result serves both profiles. *)
 From Coq Require Import List ZArith NArith Bool.
@@ -92,6 +94,26 @@ Definition run_c16 (args : list sx) : sx :=
   | [SZ 8%Z; rows; cols] =>
       match dN rows, dN cols with
       | Some rows, Some cols => soutcome sN (try_into_scalar rows cols)
+      | _, _ => bad_case
+      end
+  | [SZ 10%Z; rows; cols; n] =>
+      (* collect_into_components: Empty for no records; then Some(n) == rows.checked_mul(cols) *)
+      match dN rows, dN cols, dN n with
+      | Some rows, Some cols, Some n =>
+          if (n =? 0)%N then SL [SZ 1; SL [SZ 0]]
+          else match checked_mul rows cols with
+               | Some p => if (p =? n)%N then SL [SZ 0; SL [sN rows; sN cols]]
+                           else SL [SZ 1; SL [SZ 1; sN rows; sN cols; sN n]]
+               | None => SL [SZ 1; SL [SZ 1; sN rows; sN cols; sN n]]
+               end
+      | _, _, _ => bad_case
+      end
+  | [SZ 11%Z; sh; n] =>
+      match dshape sh, dN n with
+      | Some sh, Some n =>
+          if (n =? 0)%N then SL [SZ 1; SL [SZ 0]]
+          else if validate_dimensions sh n then SL [SZ 0; sshape sh]
+          else SL [SZ 1; SL [SZ 1; sshape sh; sN n]]
       | _, _ => bad_case
       end
   | [SZ 9%Z; rows; cols; probes] =>
